@@ -109,7 +109,7 @@ def run(ctx):
     # ---------------- (b) reference -> joserfc (and the model), arbitrary header spellings
     cases = []
     for _ in range(rounds):
-        valid = J.valid_cases(ctx, spell_styles=(0, 1, 2, 3, 4), quick_keys=False)
+        valid = J.valid_cases(ctx, spell_styles=(0, 1, 2, 3, 4, 5), quick_keys=False)
         for c in valid:
             c.note = "ref-signed"
         cases += valid
